@@ -165,7 +165,7 @@ def run(ctx):
     rt = ctx.func('ikesa.IkeSa.check_retransmission_timer')
     rets = [n for n in walk_no_nested(rt.node) if isinstance(n, ast.Return) and n.value is not None
             and not (isinstance(n.value, ast.Constant) and n.value.value is None)]
-    ctx.floor('X2 retransmitting return in check_retransmission_timer', len(rets), 1)
+    ctx.floor('the retransmitting return of check_retransmission_timer', len(rets), 1, rule='X2')
     for r in rets:
         ctx.check(src(r.value) == 'self.request.to_bytes()', 'X2',
                   'the timer re-serialises the retained request (`%s`)' % src(r.value),
@@ -320,7 +320,7 @@ def run(ctx):
     dpd = ctx.func('ikesa.IkeSa.check_dead_peer_detection_timer')
     gd = esc.add_exception_edges(dpd)
     emit = [n for n, x in common.nodes_calling(ctx, dpd, gd, common.calls_named('generate_dead_peer_detection_request'))]
-    ctx.floor('X5 DPD request generation', len(emit), 1)
+    ctx.floor('the DPD request generation', len(emit), 1, rule='X5')
     dconds = [c for c in gd.nodes if c.kind == 'cond' and isinstance(c.ast, ast.Compare)
               and src(c.ast.left) == 'self.start_dpd_at' and isinstance(c.ast.ops[0], (ast.Lt, ast.LtE))]
     for n in emit:
@@ -347,7 +347,7 @@ def run(ctx):
     soft = [c for c in gr.nodes if c.kind == 'cond' and 'self.rekey_ike_sa_at' in src(c.ast)]
     dele = [n for n, x in common.nodes_calling(ctx, rk, gr, common.calls_named('generate_delete_ike_sa_request'))]
     rekey = [n for n, x in common.nodes_calling(ctx, rk, gr, common.calls_named('generate_rekey_ike_sa_request'))]
-    ctx.floor('X5 hard/soft lifetime actions', min(len(dele), len(rekey)), 1)
+    ctx.floor('the hard (delete) and soft (rekey) lifetime actions', min(len(dele), len(rekey)), 1, rule='X5')
     for n in dele:
         ctx.check(any(common.dominated_by_edge(gr, n, c, 'T') and isinstance(c.ast.ops[0], (ast.Lt, ast.LtE))
                       and src(c.ast.left) == 'self.delete_ike_sa_at' for c in hard), 'X5',
